@@ -35,6 +35,7 @@ type Req struct {
 	Block int    `json:"block"` // 0 nil, 1 A, 2 B
 	TsMs  int64  `json:"ts"`    // timestamp offset
 	POL   int32  `json:"pol,omitempty"`
+	Part  int    `json:"part,omitempty"` // 0: the block's part set header, 1: another parts hash, 2: another number of parts (same block hash)
 }
 
 type strace struct {
@@ -68,13 +69,23 @@ func step(k string) int8 {
 	return 3
 }
 
-func blockID(b int) tmtypes.BlockID {
+// blockID: part 1 and 2 name the same block hash with another part set header (other parts hash / other number of
+// parts): a different BlockID for consensus, so a request for it at an HRS already signed conflicts.
+func blockID(b int, part int) tmtypes.BlockID {
 	if b == 0 {
 		return tmtypes.BlockID{}
 	}
 	h := sha256.Sum256([]byte{byte(b), 'b'})
 	p := sha256.Sum256([]byte{byte(b), 'p'})
-	return tmtypes.BlockID{Hash: h[:], PartSetHeader: tmtypes.PartSetHeader{Total: 1, Hash: p[:]}}
+	id := tmtypes.BlockID{Hash: h[:], PartSetHeader: tmtypes.PartSetHeader{Total: 1, Hash: p[:]}}
+	switch part {
+	case 1:
+		p2 := sha256.Sum256([]byte{byte(b), 'q'})
+		id.PartSetHeader.Hash = p2[:]
+	case 2:
+		id.PartSetHeader.Total = 2
+	}
+	return id
 }
 
 var t0 = time.Unix(1_700_000_000, 0).UTC()
@@ -106,12 +117,12 @@ func voteOf(r Req, ts time.Time, addr []byte) *tmproto.Vote {
 	if r.Kind == "precommit" {
 		t = tmproto.PrecommitType
 	}
-	v := &tmtypes.Vote{Type: t, Height: r.H, Round: r.R, BlockID: blockID(r.Block), Timestamp: ts, ValidatorAddress: addr, ValidatorIndex: 0}
+	v := &tmtypes.Vote{Type: t, Height: r.H, Round: r.R, BlockID: blockID(r.Block, r.Part), Timestamp: ts, ValidatorAddress: addr, ValidatorIndex: 0}
 	return v.ToProto()
 }
 
 func proposalOf(r Req, ts time.Time) *tmproto.Proposal {
-	p := &tmtypes.Proposal{Type: tmproto.ProposalType, Height: r.H, Round: r.R, POLRound: r.POL - 1, BlockID: blockID(1 + r.Block%2), Timestamp: ts}
+	p := &tmtypes.Proposal{Type: tmproto.ProposalType, Height: r.H, Round: r.R, POLRound: r.POL - 1, BlockID: blockID(1+r.Block%2, r.Part), Timestamp: ts}
 	return p.ToProto()
 }
 
@@ -329,7 +340,14 @@ func generate(rng *core.Rand, tier string) *strace {
 		case 2: // conflict at the same HRS: another block
 			if len(t.Reqs) > 0 {
 				q = t.Reqs[len(t.Reqs)-1]
-				q.Block = (q.Block + 1 + rng.Intn(2)) % 3
+				nb := (q.Block + 1 + rng.Intn(2)) % 3
+				if i%3 == 0 && (q.Block != 0 || q.Kind == "proposal") {
+					// the same block hash under another part set header (no extra draw: the other requests of the
+					// world are what they were before this variant existed)
+					q.Part = (q.Part + 1 + (i/3)%2) % 3
+				} else {
+					q.Block = nb
+				}
 				if q.Kind == "proposal" && rng.Chance(0.5) {
 					q.POL = (q.POL + 1) % 3
 				}
@@ -374,7 +392,7 @@ func result(tr *chain.Trace, t *strace, viol []*chain.Violation, probes *chain.P
 		Replicas: 1, Violations: viol, Probes: probes.C, WallMs: time.Since(start).Milliseconds()}
 	var ks []string
 	for _, q := range t.Reqs {
-		ks = append(ks, fmt.Sprintf("%s/%d/%d/%d", q.Kind[:3], q.H, q.R, q.Block))
+		ks = append(ks, fmt.Sprintf("%s/%d/%d/%d.%d", q.Kind[:3], q.H, q.R, q.Block, q.Part))
 	}
 	res.Shape = fmt.Sprintf("%x", core.Derive(0, strings.Join(ks, ","), 0).Uint64())
 	res.LogHash = fmt.Sprintf("%x", core.Derive(0, strings.Join(log, "\n"), uint64(len(viol))).Uint64())
